@@ -168,6 +168,24 @@ def build_tree(root, tree0, rng, extra=0):
         os.symlink('/nonexistent/verif-c11-target', os.path.join(pels, rng.choice(['a_dangling', 'zz_dangling.pel'])))
         if rng.random() < .5:
             os.symlink(os.path.join(root, 'out'), os.path.join(pels, 'link_to_out'))
+    if rng.random() < .5:
+        # the output directory is not empty: entries whose names sit right next to the names of result files
+        # (a directory squatting on a result's name, a scratch file, a backup, an earlier result) - no mode may
+        # touch them, --json may only (re)write <pel file>.<entry id>.json
+        out = os.path.join(root, 'out')
+        res1 = names['p1'] + '.%08X.json' % IDS[1]
+        res2 = names['p1b'] + '.%08X.json' % IDS[2]
+        for what in rng.sample(['dir', 'tmp', 'bak', 'old', 'other'], rng.randrange(1, 4)):
+            if what == 'dir':
+                os.makedirs(os.path.join(out, res1), exist_ok=True)
+            elif what == 'tmp':
+                seams.write_file(os.path.join(out, res2 + '.tmp'), b'scratch of something else\n')
+            elif what == 'bak':
+                seams.write_file(os.path.join(out, res2 + '~'), b'{"backup": true}\n')
+            elif what == 'old':
+                seams.write_file(os.path.join(out, names['p3'] + '.%08X.json' % IDS[3]), b'{"from": "an earlier run"}\n')
+            else:
+                seams.write_file(os.path.join(out, 'notes.txt'), b'keep me\n')
     with open(os.path.join(root, 'exclude.txt'), 'w') as f:
         f.write('BD8D0A02\n')
     return names, eids
